@@ -239,3 +239,64 @@ def rule_zerocopy_supers(u, rep):
             return True
     rep.add("ANCHOR", "ZeroCopy", "cannot locate the ZeroCopy marker trait")
     return False
+
+
+def rule_image_params(u, ts, rep):
+    """Built-in composite types that are written as one raw memory image of Self (arrays, tuples): the image
+    contains values of the type parameters, so IS_ZERO_COPY must be (at most) the conjunction of the parameters'
+    own IS_ZERO_COPY. A literal `true` lets a wrongly declared element type through the run-time check."""
+    n = 0
+    for t in ts:
+        im = t.ser_impl
+        if im is None or im.crate.name != "epserde" or im.derived:
+            continue
+        params = set()
+
+        def collect(ty, depth=0):
+            if not isinstance(ty, tuple) or depth > 8:
+                return
+            if ty and ty[0] == "param":
+                params.add(ty)
+                return
+            if ty and ty[0] in ("ref", "ptr"):
+                return                      # behind a pointer: not part of the image
+            for x in ty:
+                if isinstance(x, tuple):
+                    collect(x, depth + 1)
+        if im.self_ty[0] not in ("tuple", "array"):
+            continue
+        collect(im.self_ty)
+        params = {p_ for p_ in params if not (len(p_) > 1 and isinstance(p_[1], str) and p_[1].isupper() and len(p_[1]) == 1 and False)}
+        tparams = {p_ for p_ in params if any(g["kind"] == "type" and g["name"] == p_[1] for g in (im.generics or []))}
+        if not tparams:
+            continue
+        raw_self = any(a.k == "Z" and a.ty == im.self_ty for p in (t.paths.get("ser") or []) if p.outcome == "ok" for a in p.atoms)
+        if not raw_self:
+            continue
+        bid = im.item_id("IS_ZERO_COPY")
+        b = u.body(bid) if bid else None
+        if b is None or b.thir is None:
+            continue
+        got = set()
+
+        def walk(e):
+            if isinstance(e, dict):
+                if e.get("k") == "NamedConst" and b.crate.defj(e["d"]).get("name") == "IS_ZERO_COPY":
+                    a = b.crate.gargs(e["a"])
+                    if a:
+                        got.add(a[0])
+                for x in e.values():
+                    walk(x)
+            elif isinstance(e, list):
+                for x in e:
+                    walk(x)
+        walk(b.thir["root"])
+        n += 1
+        missing = {p_ for p_ in tparams if not any(g == p_ or (isinstance(g, tuple) and g[:2] == p_[:2]) for g in got)}
+        rep.oblige(not missing)
+        if missing:
+            rep.add("ZC-PARAM", im.key(), "`%s` is written as one raw image of itself, which contains values of %s, but its IS_ZERO_COPY does not depend on %s::IS_ZERO_COPY: "
+                    "an element type wrongly declared zero-copy passes the run-time check through this container"
+                    % (ty_str(im.self_ty), sorted(p_[1] for p_ in tparams), sorted(p_[1] for p_ in missing)), im.loc())
+    rep.count("builtin_raw_image_containers", n)
+    return n
